@@ -377,6 +377,16 @@ Definition stamp (g : N) (l : list node) : list node :=
 Definition edges_ok (ig : igraph) : bool :=
   forallb (fun e => let '(a, b, _) := e in ahas a (inodes ig) && ahas b (inodes ig)) (iedges ig).
 
+(* ... and holds at most one link per unordered pair of nodes *)
+Definition same_pair (p q : N * N) : bool :=
+  (N.eqb (fst p) (fst q) && N.eqb (snd p) (snd q)) || (N.eqb (fst p) (snd q) && N.eqb (snd p) (fst q)).
+Fixpoint pdistb (l : list (N * N)) : bool :=
+  match l with
+  | [] => true
+  | p :: r => forallb (fun q => negb (same_pair p q)) r && pdistb r
+  end.
+Definition links_distinct (ig : igraph) : bool := pdistb (map fst (iedges ig)).
+
 (* G.add_nodes_from(nodes(data=True)); G.add_edges_from(edges(data=True)) *)
 Definition nx_add_all (G : nxg) (ns : list node) (es : list edge) : nxg :=
   let G1 := fold_left (fun acc n => nx_add_node acc (fst n) (snd n)) ns G in
